@@ -24,27 +24,9 @@ import (
 // it was given; ParseTransactionStatusMetaContainer records the bytes it was given.
 
 var (
-	c14TxTable    []*ipldbindcode.Transaction
-	c14FrameTable []*ipldbindcode.DataFrame
-	c14MetaSeen   [][]byte // buffers handed to the metadata parser, in call order
-	c14TxSeen     [][]byte // buffers handed to the transaction decoder, in call order
+	c14MetaSeen [][]byte // buffers handed to the metadata parser, in call order
+	c14TxSeen   [][]byte // buffers handed to the transaction decoder, in call order
 )
-
-func c14Model_DecodeTransaction(raw []byte) (*ipldbindcode.Transaction, error) {
-	if len(raw) != 3 || raw[1] != byte(iplddecoders.KindTransaction) || int(raw[2]) >= len(c14TxTable) {
-		return nil, errors.New("c14: not a transaction object")
-	}
-	t := *c14TxTable[raw[2]]
-	return &t, nil
-}
-
-func c14Model_DecodeDataFrame(raw []byte) (*ipldbindcode.DataFrame, error) {
-	if len(raw) != 3 || raw[1] != byte(iplddecoders.KindDataFrame) || int(raw[2]) >= len(c14FrameTable) {
-		return nil, errors.New("c14: not a dataframe object")
-	}
-	f := *c14FrameTable[raw[2]]
-	return &f, nil
-}
 
 func c14Model_UnmarshalBin(v interface{}, b []byte) error {
 	tx, ok := v.(*solana.Transaction)
@@ -68,10 +50,13 @@ func c14Obj(c cid.Cid, kind iplddecoders.Kind, id int) ObjectWithMetadata {
 }
 
 func VerifC14Accum() {
-	c14TxTable, c14FrameTable, c14MetaSeen, c14TxSeen = nil, nil, nil, nil
+	c14ResetNodes()
+	c14MetaSeen, c14TxSeen = nil, nil
 	K := verifParam("txs", 2)
 	maxN := verifParam("N", 3)
 	hashMode := verifChoice("checksum", 3) // 0 CRC64, 1 legacy FNV-1a, 2 absent
+	// legacy FNV-1a records: concrete data (else every VerifyHash asks the solver whether CRC64(x) = FNV-1a(x) has a solution)
+	c14Concrete = verifParam("concrete", 0) == 1 || hashMode == 1
 	// layout of the object list: 0 = frames right before their transaction (as the CAR writer emits them);
 	// 1 = one frame object is missing; 2 = the frames of the second transaction come before the first transaction
 	layout := verifChoice("layout", 3)
@@ -105,9 +90,7 @@ func VerifC14Accum() {
 		pls = append(pls, p)
 		var fo []ObjectWithMetadata
 		for k := 1; k < n; k++ {
-			id := len(c14FrameTable)
-			c14FrameTable = append(c14FrameTable, p.frames[k])
-			fo = append(fo, c14Obj(p.cids[k], iplddecoders.KindDataFrame, id))
+			fo = append(fo, c14Obj(p.cids[k], iplddecoders.KindDataFrame, c14AddFrame(p.frames[k])))
 		}
 		if n > 1 {
 			multi++
@@ -131,19 +114,25 @@ func VerifC14Accum() {
 				hd = int(c14Fnv(pd.orig))
 			}
 			pd.setMeta(2, hashMode != 2, hd)
-			id := len(c14FrameTable)
-			c14FrameTable = append(c14FrameTable, pd.frames[1])
-			fo = append(fo, c14Obj(pd.cids[1], iplddecoders.KindDataFrame, id))
+			fo = append(fo, c14Obj(pd.cids[1], iplddecoders.KindDataFrame, c14AddFrame(pd.frames[1])))
 			frameObjs[t] = fo
 			tx.Data = *pd.frames[0]
 			txData = append(txData, pd.orig)
 		} else {
 			td := verifBytes("txData", 2)
+			if c14Concrete {
+				td[0], td[1] = byte(0xA0+t), byte(0xB7-t)
+			}
 			txData = append(txData, td)
 			tx.Data = ipldbindcode.DataFrame{Kind: int(iplddecoders.KindDataFrame), Data: ipldbindcode.Buffer(append([]byte{}, td...))}
+			if verifParam("fullTxHead", 0) == 1 {
+				// the head frame of the transaction bytes as the current writer emits it: checksum, index 0, total 1
+				tx.Data.Hash = c14pp(int(c14Crc(td)))
+				tx.Data.Index = c14pp(0)
+				tx.Data.Total = c14pp(1)
+			}
 		}
-		c14TxTable = append(c14TxTable, tx)
-		txObjs = append(txObjs, c14Obj(c14Cid(60+t), iplddecoders.KindTransaction, t))
+		txObjs = append(txObjs, c14Obj(c14Cid(60+t), iplddecoders.KindTransaction, c14AddTx(tx)))
 	}
 	entry := c14Obj(c14Cid(70), iplddecoders.KindEntry, 0)
 	expectOK := true
@@ -187,26 +176,26 @@ func VerifC14Accum() {
 	res, err := ObjectsToTransactionsAndMetadata(block, objects)
 
 	if layout == 0 {
-		verifAssert(err == nil, "C14.accum: well-formed block rejected")
+		verifAssert(err == nil, c14Label+": well-formed block rejected")
 	}
 	if !expectOK {
-		verifAssert(err != nil, "C14.accum: a metadata frame is missing from the block but the block was accepted")
+		verifAssert(err != nil, c14Label+": a metadata frame is missing from the block but the block was accepted")
 	}
 	if err == nil {
-		verifAssert(len(res) == K, "C14.accum: number of transactions")
-		verifAssert(len(c14TxSeen) == K, "C14.accum: number of decoded transactions")
+		verifAssert(len(res) == K, c14Label+": number of transactions")
+		verifAssert(len(c14TxSeen) == K, c14Label+": number of decoded transactions")
 		nonEmpty := 0
 		for t := 0; t < K && t < len(res); t++ {
-			verifAssert(bytes.Equal(c14TxSeen[t], txData[t]), "C14.accum: transaction bytes differ from the stored ones")
+			verifAssert(bytes.Equal(c14TxSeen[t], txData[t]), c14Label+": transaction bytes differ from the stored ones")
 			if len(pls[t].orig) == 0 {
-				verifAssert(res[t].IsMetaNotFound(), "C14.accum: empty metadata not reported as not-found")
+				verifAssert(res[t].IsMetaNotFound(), c14Label+": empty metadata not reported as not-found")
 				continue
 			}
-			verifAssert(res[t].Error == nil && res[t].Metadata != nil, "C14.accum: metadata not delivered")
-			verifAssert(nonEmpty < len(c14MetaSeen) && bytes.Equal(c14MetaSeen[nonEmpty], pls[t].orig), "C14.accum: metadata bytes handed to the parser differ from the original payload")
+			verifAssert(res[t].Error == nil && res[t].Metadata != nil, c14Label+": metadata not delivered")
+			verifAssert(nonEmpty < len(c14MetaSeen) && bytes.Equal(c14MetaSeen[nonEmpty], pls[t].orig), c14Label+": metadata bytes handed to the parser differ from the original payload")
 			nonEmpty++
 		}
-		verifAssert(nonEmpty == len(c14MetaSeen), "C14.accum: parser called more often than there are non-empty payloads")
+		verifAssert(nonEmpty == len(c14MetaSeen), c14Label+": parser called more often than there are non-empty payloads")
 	}
 	verifReach("end")
 }
